@@ -165,6 +165,7 @@ def triggers_of(program: dict, facts: dict[str, dict]) -> dict[str, list[str]]:
             hit("D49", sid)
         if op in ("mutate", "filter", "summarize", "arrange"):
             found = []
+            _walk(st, lambda d: found.append(1) if ("fn" in d and d.get("args") and not _has_col(d) and d["fn"] not in AGG_OPS | WIN_OPS) else None)
             _walk(st, lambda d: found.append(1) if d.get("fn") in CMP_OPS and d.get("args") and isinstance(d["args"][0], dict) and "lit" in d["args"][0] else None)
             if found:
                 hit("D51", sid)
